@@ -330,9 +330,12 @@ def check(ctx):
                       "json.loads of the like-named members",
            key="C06.3:load:json")
     la = rl.calls("evo.core.result.Result.add_np_array")
+    # the members are selected by suffix: in a filtered list the loop runs
+    # over, or by a test the loop body is conditioned on
     ok = len(la) == 1 and is_call_to(la[0].data["args"][1], "numpy.load") \
         and any(tm.is_const(x, ".npy")
-                for x in la[0].data["args"][1].walk()) and \
+                for t in (la[0].data["args"][1], la[0].live)
+                for x in t.walk()) and \
         la[0].data["args"][0].op == "attr" and \
         la[0].data["args"][0].args[1] == "stem"
     ctx.ob("C06.3", rl.func, ok,
@@ -349,7 +352,7 @@ def check(ctx):
             bool(rs.calls(FI + writer))
         r_ok = bool(rl.calls(FI + reader)) and any(
             tm.is_const(x, ext) for e in rl.calls(FI + reader)
-            for x in e.data["args"][0].walk())
+            for t in (e.data["args"][0], e.live) for x in t.walk())
         ctx.ob("C06.3", rs.func, w_ok and r_ok,
                f"result: embedded trajectories use {writer} -> *{ext} -> "
                f"{reader}" if w_ok and r_ok else
